@@ -34,15 +34,7 @@ pub struct Case {
 pub struct C09;
 
 /// tape words from fuzzer bytes (little endian, 4 bytes per word)
-pub fn words_from_bytes(data: &[u8]) -> Vec<u32> {
-    data.chunks(4)
-        .map(|c| {
-            let mut b = [0u8; 4];
-            b[..c.len()].copy_from_slice(c);
-            u32::from_le_bytes(b)
-        })
-        .collect()
-}
+pub use crate::run::words_from_bytes;
 
 pub const TIME_ZONES: [&str; 6] = ["UTC", "Europe/Stockholm", "America/Sao_Paulo", "Pacific/Apia", "Australia/Lord_Howe", "America/Havana"];
 
@@ -125,7 +117,7 @@ impl Property for C09 {
     fn cases(&self, tier: Tier) -> u64 {
         // per time zone
         match tier {
-            Tier::Quick => 60_000,
+            Tier::Quick => 120_000,
             Tier::Thorough => 600_000,
         }
     }
